@@ -533,6 +533,7 @@ func (e *Engine) verifyFunction(fc *FuncContract) (*VC, error) {
 	for _, acs := range fc.AtCall {
 		texts = append(texts, acs...)
 	}
+	texts = append(texts, fc.Reachable...)
 	for _, t := range texts {
 		for _, m := range callsRe.FindAllStringSubmatch(t, -1) {
 			vc.eventNames[m[1]] = true
